@@ -1039,6 +1039,11 @@ def mk_server_cfg(args: ArgsType) -> configparser.SectionProxy:
                 # The value in effect is the default, so it isn't written; but
                 # then a different value saved earlier must not stay in force
                 USERCFG.remove_option(server, opt)
+                if USERCFG.has_option(server, opt) and cfg[opt] != arg2config(
+                    opt, opt_type, value
+                ):
+                    # ... nor one inherited from the user's [DEFAULT] section
+                    cfg[opt] = arg2config(opt, opt_type, value)
 
     return cfg
 
